@@ -527,5 +527,6 @@ func ReadMinimalKey(rd io.Reader) (key.Key, error) {
 	if err != nil {
 		return nil, err
 	}
-	return key.New(key.MinecraftNamespace, str), nil
+	// WriteMinimalKey omits only the default namespace: "ns:value" must come back as (ns, value).
+	return parseIdentifierKey(str), nil
 }
